@@ -177,6 +177,44 @@ def check_setparam(backend, acc):
         return
 
 
+def check_explicit_names(backend, acc):
+  """explicit_module_name metadata: (a) two different components given ONE explicit name, (b) an explicit name equal to the generated
+  name of a different component, (c) two identical components given one explicit name (legitimately one definition)"""
+  P = trcheck.backend_pass(backend)
+  cat = dict(D.catalogue())
+  cases = [("two-different-one-name", "Inc(1)", "Inc(2)", {"a": "MyMod", "b": "MyMod"}, False),
+           ("explicit-equals-generated", "Inc(1)", "Inc(2)", {"a": "Inc__amount_2"}, False),
+           ("same-component-one-name", "Inc(1)", "Inc(amount=1)", {"a": "MyMod", "b": "MyMod"}, True),
+           ("distinct-names", "Inc(1)", "Inc(2)", {"a": "ModA", "b": "ModB"}, True)]
+  for label, la, lb, names, must_translate in cases:
+    cls = pair_class(cat[la], cat[lb])
+    case = dict(kind="explicit", label=label, backend=backend)
+    acc.count("evaluations")
+    def build():
+      m = cls(); m.elaborate(); m.set_metadata(P.enable, True)
+      for inst, nm in names.items(): getattr(m, inst).set_metadata(P.explicit_module_name, nm)
+      return m
+    try:
+      m = build(); m.apply(P())
+      fn = m.get_metadata(P.translated_filename); top = m.get_metadata(P.translated_top_module)
+      text = open(fn).read(); os.remove(fn)
+    except Exception as ex:
+      if must_translate or "already uses that module name" not in str(ex):
+        acc.violation(f"{backend}:explicit:{'refused' if 'already uses' in str(ex) else 'raised'}:{label}", case, "translates", f"{type(ex).__name__}: {str(ex)[-120:]}", label)
+      continue
+    try:
+      des = svsim.Design(text)
+      inst = svsim.Inst(des, top)
+    except SvSyntaxError as ex:
+      acc.violation(f"{backend}:explicit:invalid-text:{label}", case, "every module defined once", str(ex)[:160], label); continue
+    from pymtl3 import DefaultPassGroup
+    ref = cls(); ref.elaborate(); ref.apply(DefaultPassGroup())
+    for v in VECS:
+      ref.in_ @= v; inst.set_port("in_", v); ref.sim_tick(); inst.tick()
+      if (int(ref.oa), int(ref.ob)) != (inst.get_port("oa"), inst.get_port("ob")):
+        acc.violation(f"{backend}:explicit:wrong-hardware:{label}", dict(case, vec=v), (int(ref.oa), int(ref.ob)), (inst.get_port("oa"), inst.get_port("ob")), label); break
+
+
 def check_mangle(name, backend, acc):
   r = trcheck.check_class(name, D.MANGLE[name], backend, acc, lambda imap: [{r: (13 * (k + 1) + 7 * j) & 0xFF for k, (r, w, _) in enumerate(imap)} for j in range(6)])
   return r
@@ -277,6 +315,7 @@ def run_shard(shard, tier, seed):
   else:
     for b in ("sv", "yosys"):
       check_setparam(b, acc)
+      check_explicit_names(b, acc)
       for name in D.MANGLE: check_mangle(name, b, acc)
   return acc
 
@@ -286,6 +325,9 @@ def replay(case):
   if case.get("kind") == "pair":
     cat = dict(D.catalogue())
     check_pair(case["a"], cat[case["a"]], case["b"], cat[case["b"]], case["backend"], acc, {}, wrapped=case.get("wrapped", False))
+  elif case.get("kind") == "explicit":
+    check_explicit_names(case["backend"], acc)
+    return [(v["sig"], v["expected"], v["observed"], v["msg"]) for v in acc.violations if v["case"].get("label") == case["label"]][:3]
   elif case.get("kind") == "setparam":
     check_setparam(case["backend"], acc)
   elif case.get("kind") == "class":
